@@ -23,6 +23,7 @@ var c11Alphabet = []c11Chunk{
 	{"empty", func(t string) string { return "\n" + t + "\n" }},
 	{"long5k", func(t string) string { return t + strings.Repeat("z", 5000) + "\n" }},
 	{"long70k", func(t string) string { return t + strings.Repeat("w", 70000) + "\n" }},
+	{"special", func(t string) string { return t + " 50% done %d %s %% \t\"q\" \\ {json:1}\n" }},
 	{"nonl", func(t string) string { return t + "-unterminated" }}, // last chunk only
 }
 
